@@ -32,7 +32,26 @@ def main():
     try:
         if a.replay:
             payload = json.load(open(a.replay))
-            return mod.replay(run, payload)
+            rc = mod.replay(run, payload)
+            if rc in (0, 1):
+                return rc
+            # generic replay: every random choice derives from (tier, seed), both recorded in the replay file - re-run the check with them and report
+            # whether the recorded failure (same key) or broken tie (same name) recurs on /repo's current tree.  Writes no evidence.
+            run = common.Run(a.prop, payload.get("tier", a.tier), int(payload.get("seed", seed)))
+            common.proof_stage(run)
+            mod.check(run)
+            if payload.get("kind") == "broken-tie":
+                names = {t.get("name") for t in payload.get("broken_ties", [])}
+                again = [t for t in run.ties if t.get("name") in names]
+                for t in again[:5]:
+                    print("replay: broken %s recurs: %s %s" % (t["kind"], t["name"], t["detail"][:300]))
+            else:
+                again = [f for f in run.failures if f["key"] == payload.get("key")]
+                for f in again[:5]:
+                    print("replay: failure [%s] recurs: %s" % (f["key"], f["what"][:600]))
+            if not again:
+                print("replay: the recorded %s does not recur on the current tree (tier %s, seed %s)" % (payload.get("kind"), run.tier, run.seed))
+            return 1 if again else 0
         common.proof_stage(run)
         mod.check(run)
         return run.finish(level=getattr(mod, "LEVEL", "proof"))
